@@ -15,3 +15,87 @@ pub fn raise_interrupt() {
 pub fn clear_interrupt() -> bool {
     crate::machine::INTERRUPT.swap(false, Ordering::Relaxed)
 }
+
+// ---------------------------------------------------------------------------
+// CharReader driver: a scripted `Read` that hands out fixed chunks, and a
+// script of peek / read / put-back operations.
+
+struct ChunkSource {
+    chunks: std::collections::VecDeque<Vec<u8>>,
+}
+
+impl std::io::Read for ChunkSource {
+    fn read(&mut self, buf: &mut [u8]) -> std::io::Result<usize> {
+        match self.chunks.pop_front() {
+            None => Ok(0),
+            Some(mut chunk) => {
+                if chunk.len() > buf.len() {
+                    let rest = chunk.split_off(buf.len());
+                    self.chunks.push_front(rest);
+                }
+                buf[..chunk.len()].copy_from_slice(&chunk);
+                Ok(chunk.len())
+            }
+        }
+    }
+}
+
+/// Run `script` on a `CharReader` over a source that delivers `chunks` one per `read`.
+///
+/// Script characters: `p` = peek_char, `r` = read_char (after a bad-UTF-8 error the
+/// reported bytes are consumed, as clients of the reader do), `b` = put back the last
+/// character that `r` returned (ignored if there is none). One item per `p`/`r`:
+/// `c<code point>`, `e<hex of the bad bytes>`, `eof`, or `io` for any other I/O error.
+pub fn char_reader_run(chunks: Vec<Vec<u8>>, script: &str) -> Vec<String> {
+    use crate::parser::char_reader::{BadUtf8Error, CharRead, CharReader};
+
+    let mut reader = CharReader::new(ChunkSource {
+        chunks: chunks.into_iter().collect(),
+    });
+    let mut out = vec![];
+    let mut last: Option<char> = None;
+
+    fn item(r: &Option<std::io::Result<char>>) -> (String, usize) {
+        match r {
+            None => ("eof".to_string(), 0),
+            Some(Ok(c)) => (format!("c{}", *c as u32), 0),
+            Some(Err(e)) => match e.get_ref().and_then(|e| e.downcast_ref::<BadUtf8Error>()) {
+                Some(bad) => {
+                    let hex: String = bad.bytes.iter().map(|b| format!("{b:02x}")).collect();
+                    (format!("e{hex}"), bad.bytes.len())
+                }
+                None => ("io".to_string(), 0),
+            },
+        }
+    }
+
+    for op in script.chars() {
+        match op {
+            'p' => {
+                let r = reader.peek_char();
+                out.push(item(&r).0);
+            }
+            'r' => {
+                let r = reader.read_char();
+                let (s, bad_len) = item(&r);
+                if let Some(Ok(c)) = r {
+                    last = Some(c);
+                } else {
+                    last = None;
+                }
+                if bad_len > 0 {
+                    reader.consume(bad_len);
+                }
+                out.push(s);
+            }
+            'b' => {
+                if let Some(c) = last.take() {
+                    reader.put_back_char(c);
+                }
+            }
+            _ => {}
+        }
+    }
+
+    out
+}
